@@ -96,6 +96,29 @@ def chars_not_in(s, excluded: str) -> None:
             assume(o not in codes)
 
 
+def chars_below(s, limit: int) -> None:
+    """Precondition: every code point of *s* is < limit (no fork)."""
+    try:
+        from crosshair.tracers import NoTracing, is_tracing
+    except ImportError:  # pragma: no cover
+        is_tracing = lambda: False  # noqa: E731
+    if not is_tracing():
+        for c in s:
+            assume(ord(c) < limit)
+        return
+    for i in range(len(s)):
+        o = ord(s[i])
+        done = False
+        with NoTracing():
+            var = getattr(o, 'var', None) if type(o) is not int else None
+            if var is not None:
+                from crosshair.statespace import context_statespace
+                context_statespace().add(var < limit)
+                done = True
+        if not done:
+            assume(o < limit)
+
+
 def require(cond, msg: str, *details) -> None:
     """Assert a property clause."""
     if not cond:
